@@ -106,7 +106,7 @@ func (f *ParseFloat) Call(s *slip.Scope, args slip.List, depth int) (result slip
 		if end < 0 {
 			end = len(ra)
 		}
-		if start < 0 || len(ra) <= start || end < 0 || len(ra) < end || end < start {
+		if start < 0 || len(ra) < start || end < 0 || len(ra) < end || end < start {
 			slip.ErrorPanic(s, depth, "the bounding indices %d and %d are not valid for string of length %d",
 				start, end, len(ra))
 		}
